@@ -543,6 +543,24 @@ func (mc *Machine) CrashDuring(step Step, point string, hit int) bool {
 // newest WAL segment to `size` bytes (size lies inside the last record, whose extent the caller
 // measured), then recovers on that image. before/after are the model states around that last op.
 func (mc *Machine) TornWAL(before *model.Store, hiddenBefore map[string]hiddenPoint, segment string, size int64, inside, ofDelete bool) {
+	mc.TornFiles(before, hiddenBefore, []Cut{{segment, size}}, fmt.Sprintf("torn WAL tail (%s cut at %d)", filepath.Base(segment), size), ofDelete)
+	if inside {
+		mc.TornInside++
+		mc.Rec.Class("tornwal:inside-record")
+	} else {
+		mc.Rec.Class("tornwal:at-record-boundary")
+	}
+}
+
+// Cut truncates one file (path inside the live root) of a crash image to Size bytes.
+type Cut struct {
+	Path string
+	Size int64
+}
+
+// TornFiles copies the trees as they are after the last (now unacknowledged) operation, truncates
+// the given files of the copy and recovers on that image.
+func (mc *Machine) TornFiles(before *model.Store, hiddenBefore map[string]hiddenPoint, cuts []Cut, what string, ofDelete bool) {
 	if ofDelete {
 		mc.SkipQL = true
 	}
@@ -561,19 +579,19 @@ func (mc *Machine) TornWAL(before *model.Store, hiddenBefore map[string]hiddenPo
 	if err := fix.CopyTree(mc.F.Root, image); err != nil {
 		mc.Fatal("harness: copying image: %v", err)
 	}
-	rel, _ := filepath.Rel(mc.F.Root, segment)
-	if err := os.Truncate(filepath.Join(image, rel), size); err != nil {
-		mc.Fatal("harness: truncate: %v", err)
+	for i, c := range cuts {
+		rel, _ := filepath.Rel(mc.F.Root, c.Path)
+		if err := os.Truncate(filepath.Join(image, rel), c.Size); err != nil {
+			mc.Fatal("harness: truncate: %v", err)
+		}
+		if i == 0 {
+			mc.Ops = append(mc.Ops, Op{Kind: "tornwal", Arg: filepath.Base(c.Path), Offset: c.Size})
+		} else {
+			mc.Ops = append(mc.Ops, Op{Kind: "tornwal", Arg: "+" + filepath.Base(c.Path), Offset: c.Size})
+		}
 	}
-	mc.Ops = append(mc.Ops, Op{Kind: "tornwal", Arg: filepath.Base(segment), Offset: size})
 	after := mc.M.Clone()
-	mc.recoverOn(image, before, after, fmt.Sprintf("torn WAL tail (%s cut at %d)", filepath.Base(segment), size))
-	if inside {
-		mc.TornInside++
-		mc.Rec.Class("tornwal:inside-record")
-	} else {
-		mc.Rec.Class("tornwal:at-record-boundary")
-	}
+	mc.recoverOn(image, before, after, what)
 }
 
 // diagnoseImage describes where a key stands on a recovered image (failure reports only).
